@@ -7,11 +7,49 @@
 From Coq Require Import List ZArith Bool Arith QArith Qabs.
 Import ListNotations.
 
-(* one stored entry of sd.cell_faces: (face, cell, sign) *)
-Definition inc := (nat * nat * Z)%type.
-Definition tf (t : inc) : nat := fst (fst t).
-Definition tc (t : inc) : nat := snd (fst t).
-Definition ts (t : inc) : Z := snd t.
+(* One half-face entry as the code handles it after the periodic extension:
+     (fi_periodic, ci_periodic, sgn_periodic, fi, sgn)
+   = (face the entry is accumulated on / row of the flux matrix, cell, sign in the flux
+      matrix, face whose geometry is used, sign applied to that face's normal).
+   A stored entry (f, c, s) of sd.cell_faces is [geo f c s] = (f, c, s, f, s); a periodic pair
+   (l, r) adds (l, cell r, -sgn l, r, sgn r) and (r, cell l, -sgn r, l, sgn l): the pair is
+   one face with two cells. *)
+Definition inc := (nat * nat * Z * nat * Z)%type.
+Definition tf (t : inc) : nat := fst (fst (fst (fst t))).
+Definition tc (t : inc) : nat := snd (fst (fst (fst t))).
+Definition ts (t : inc) : Z := snd (fst (fst t)).
+Definition tg (t : inc) : nat := snd (fst t).
+Definition tgs (t : inc) : Z := snd t.
+Definition geo (f c : nat) (s : Z) : inc := (f, c, s, f, s).
+
+(* sparse_array_to_row_col_data(sd.cell_faces) as triples, and the periodic extension
+   fi_periodic/ci_periodic/sgn_periodic, fi/ci/sgn of Tpfa.discretize.  ci_left[i] and
+   left_sgn[i] are the cell and the sign of the single stored entry of face fi_left[i];
+   a mapped face without exactly one stored entry makes the code raise RuntimeError (None). *)
+Definition triple := (nat * nat * Z)%type.
+Definition entries_of (gcf : list triple) (f : nat) : list triple :=
+  filter (fun t : triple => fst (fst t) =? f) gcf.
+Definition single (gcf : list triple) (f : nat) : option (nat * Z) :=
+  match entries_of gcf f with
+  | [t] => Some (snd (fst t), snd t)
+  | _ => None
+  end.
+Fixpoint periodic_extra (gcf : list triple) (pm : list (nat * nat))
+  : option (list inc * list inc) :=
+  match pm with
+  | [] => Some ([], [])
+  | (l, r) :: pm' =>
+      match single gcf l, single gcf r, periodic_extra gcf pm' with
+      | Some (cl, sl), Some (cr, sr), Some (a, b) =>
+          Some ((l, cr, (- sl)%Z, r, sr) :: a, (r, cl, (- sr)%Z, l, sl) :: b)
+      | _, _, _ => None
+      end
+  end.
+Definition extend (gcf : list triple) (pm : list (nat * nat)) : option (list inc) :=
+  match periodic_extra gcf pm with
+  | Some (a, b) => Some (map (fun t : triple => geo (fst (fst t)) (snd (fst t)) (snd t)) gcf ++ a ++ b)
+  | None => None
+  end.
 
 Section Tpfa.
   Variable F : Type.
@@ -40,7 +78,7 @@ Section Tpfa.
   Record input := {
     dim : nat;                          (* sd.dim *)
     nf : nat;  nc : nat;
-    cf : list inc;                      (* sparse_array_to_row_col_data(sd.cell_faces) *)
+    cf : list inc;                      (* the extended entry list, see [extend] *)
     normal : nat -> vec;                (* sd.face_normals[:, f] *)
     fcen : nat -> vec;                  (* sd.face_centers[:, f] *)
     ccen : nat -> vec;                  (* sd.cell_centers[:, c] *)
@@ -54,10 +92,10 @@ Section Tpfa.
   Variable I : input.
 
   (* n = face_normals[:, fi] * sgn ; nk = (perm * n).sum(axis=1) = K n *)
-  Definition nvec (e : inc) : vec := vscale (of_Z (ts e)) (normal I (tf e)).
+  Definition nvec (e : inc) : vec := vscale (of_Z (tgs e)) (normal I (tg e)).
   Definition knvec (e : inc) : vec := mulmv (perm I (tc e)) (nvec e).
   (* fc_cc = face_centers[:, fi] - cell_centers[:, ci] *)
-  Definition dvec (e : inc) : vec := vsub (fcen I (tf e)) (ccen I (tc e)).
+  Definition dvec (e : inc) : vec := vsub (fcen I (tg e)) (ccen I (tc e)).
   (* t_face = (nk * fc_cc).sum(axis=0) / power(fc_cc, 2).sum(axis=0) *)
   Definition half_trans (e : inc) : F := fdiv (dot (knvec e) (dvec e)) (dot (dvec e) (dvec e)).
 
@@ -78,18 +116,19 @@ Section Tpfa.
   (* coo_matrix((t[fi] * sgn, (fi, ci))) *)
   Definition flux : coo := map (fun e => (tf e, tc e, fmul (t_flux (tf e)) (of_Z (ts e)))) (cf I).
 
-  (* bndr_sgn: the stored sign of the (single) cell of each boundary face *)
+  (* bndr_sgn: the stored sign of the (single) cell of each boundary face; stored entries
+     are those whose geometry face is the face itself *)
   Definition bsgn (f : nat) : F :=
-    match filter (fun e => tf e =? f) (cf I) with
+    match filter (fun e => (tf e =? f) && (tg e =? f)) (cf I) with
     | e :: _ => of_Z (ts e)
     | [] => f0
     end.
   (* coo_matrix((t_b[bndr_ind] * bndr_sgn, (bndr_ind, bndr_ind))) *)
   Definition bound_flux : coo := map (fun f => (f, f, fmul (t_b f) (bsgn f))) (bnd I).
 
-  (* v_cell[bnd.is_neu[fi]] = 1 *)
+  (* v_cell[bnd.is_neu[fi]] = 1 ; coo_matrix((v_cell, (fi, ci))) — rows are the geometry faces *)
   Definition bound_pressure_cell : coo :=
-    map (fun e => (tf e, tc e, if is_neu I (tf e) then f1 else f0)) (cf I).
+    map (fun e => (tg e, tc e, if is_neu I (tg e) then f1 else f0)) (cf I).
   (* v_face[bnd.is_dir] = 1 ; v_face[bnd.is_neu] = -1 / t_full[bnd.is_neu] *)
   Definition v_face (f : nat) : F :=
     if is_neu I f then fopp (fdiv f1 (t_full f)) else if is_dir I f then f1 else f0.
@@ -149,7 +188,8 @@ Definition same_matrix (A B : qcoo) : bool := covers A B && covers B A.
 Definition zq := (Q * Q * Q)%type.
 Definition of_zq (t : zq) : nat * nat * Q :=
   let '(a, b, v) := t in (Z.to_nat (Qnum a), Z.to_nat (Qnum b), v).
-Definition of_zz (t : Z * Z * Z) : inc := let '(a, b, v) := t in (Z.to_nat a, Z.to_nat b, v).
+Definition of_zz (t : Z * Z * Z) : triple := let '(a, b, v) := t in (Z.to_nat a, Z.to_nat b, v).
+Definition of_zp (t : Z * Z) : nat * nat := (Z.to_nat (fst t), Z.to_nat (snd t)).
 
 Definition qvec := (Q * Q * Q)%type.
 Definition nthv (l : list qvec) (i : nat) : qvec := nth i l (0, 0, 0)%Q.
@@ -157,19 +197,43 @@ Definition nthm (l : list (qvec * qvec * qvec)) (i : nat) :=
   nth i l ((0, 0, 0), (0, 0, 0), (0, 0, 0))%Q.
 Definition nthb (l : list bool) (i : nat) : bool := nth i l false.
 
-Definition mk_input (dim nf nc : Z) (cf : list (Z * Z * Z)) (normals fcs ccs : list qvec)
+(* [pm] = sd.periodic_face_map as pairs ([] without one).  None = RuntimeError. *)
+Definition mk_input (dim nf nc : Z) (cf : list (Z * Z * Z)) (pm : list (Z * Z))
+           (normals fcs ccs : list qvec)
            (perms : list (qvec * qvec * qvec)) (isdir isneu isint : list bool) (bnd : list Z)
-  : input Q :=
-  {| dim := Z.to_nat dim; nf := Z.to_nat nf; nc := Z.to_nat nc; cf := map of_zz cf;
+  : option (input Q) :=
+  match extend (map of_zz cf) (map of_zp pm) with
+  | None => None
+  | Some xcf => Some
+  {| dim := Z.to_nat dim; nf := Z.to_nat nf; nc := Z.to_nat nc; cf := xcf;
      normal := nthv normals; fcen := nthv fcs; ccen := nthv ccs; perm := nthm perms;
      is_dir := nthb isdir; is_neu := nthb isneu; is_int := nthb isint;
-     bnd := map Z.to_nat bnd |}.
+     bnd := map Z.to_nat bnd |}
+  end.
 
-(* korth: what the harness determined about the grid/tensor pair (K-orthogonal or not);
-   the model's checker must agree, so that the hypotheses of the exactness theorems are
-   validated on exactly the instances the oracle treats as K-orthogonal. *)
-Definition agree (I : input Q) (korth : bool) (fl bf bpc bpf : list zq) : bool :=
-  let '(a, b, c, d) := qdiscretize I in
-  same_matrix a (map of_zq fl) && same_matrix b (map of_zq bf)
-  && same_matrix c (map of_zq bpc) && same_matrix d (map of_zq bpf)
-  && Bool.eqb (korth_b I) korth.
+(* (Div * flux)[i, j] with Div = sd.cell_faces^T (stored entries only), over exact rationals:
+   evaluated on periodic instances, where the general symmetry theorem speaks about the
+   identified incidence and not about the stored one. *)
+Definition qdivflux (I : input Q) (fl : qcoo) (i j : nat) : Q :=
+  fold_right (fun e acc =>
+     if (tc e =? i) && (tf e =? tg e) then qadd (qmul (inject_Z (ts e)) (entry fl (tf e) j)) acc else acc)
+     0%Q (cf I).
+Definition qsymmetric (I : input Q) : bool :=
+  let fl := flux Q 0%Q 1%Q qadd qsub qmul qdiv inject_Z I in
+  forallb (fun i => forallb (fun j => Qeq_bool (qdivflux I fl i j) (qdivflux I fl j i))
+                            (seq 0 (nc I))) (seq 0 (nc I)).
+
+(* korth: exact K-orthogonality of the instance as computed by the harness; the model's
+   checker must agree, so that the hypotheses of the exactness theorems are validated on
+   exactly those instances.  expected = None: the implementation raised RuntimeError. *)
+Definition agree (oi : option (input Q)) (korth : bool)
+           (expected : option (list zq * list zq * list zq * list zq)) : bool :=
+  match oi, expected with
+  | None, None => true
+  | Some inp, Some (fl, bf, bpc, bpf) =>
+      let '(a, b, c, d) := qdiscretize inp in
+      same_matrix a (map of_zq fl) && same_matrix b (map of_zq bf)
+      && same_matrix c (map of_zq bpc) && same_matrix d (map of_zq bpf)
+      && Bool.eqb (korth_b inp) korth && qsymmetric inp
+  | _, _ => false
+  end.
